@@ -192,7 +192,10 @@ func C12(c *sim.Ctx) {
 		w.nodes = append(w.nodes, nd)
 	}
 
-	thresholds(c)
+	if t.Draw("thresholds?", 100) == 99 {
+		thresholds(c)
+		return
+	}
 	faultsSeen := false
 	for step := 0; step < steps; step++ {
 		// enumerate enabled events
@@ -638,7 +641,6 @@ func (w *world) byzantine() {
 	}
 }
 
-var thresholdsDone bool
 
 type unitVals struct {
 	n int
@@ -654,16 +656,12 @@ func (u unitVals) ValidatorVotingPower(_ types.Height, a *A) types.VotingPower {
 }
 func (u unitVals) Proposer(types.Height, types.Round) A { return addr(0) }
 
-// thresholds enumerates (plain enumeration, once per process, nothing drawn, nothing logged) all
+// thresholds enumerates (plain enumeration, a run of its own selected by one tape draw, nothing else drawn) all
 // total voting powers 1..200 through the public vote-counter API and checks the quorum / f+1
 // thresholds against the statement: faulty power is the largest power strictly below one third; two
 // quorums must intersect in more than the faulty power (safety) and the correct validators alone
 // must be able to form a quorum (liveness).
 func thresholds(c *sim.Ctx) {
-	if thresholdsDone {
-		return
-	}
-	thresholdsDone = true
 	for _, wgt := range []types.VotingPower{1, 3} {
 		for n := 1; n <= 200; n++ {
 			vals := unitVals{n, wgt}
